@@ -215,7 +215,14 @@ func (e *env) buildRefs() error {
 					}
 				}
 			}
+			if ov.Coll != "" {
+				counts["overrides_with_"+ov.Coll+"_collection"]++
+			}
 			switch {
+			case ov.EmptyColl && discriminated:
+				lists["empty_list_overrides_taking_effect"] = append(lists["empty_list_overrides_taking_effect"], s.ID+"/"+ov.Name)
+			case ov.EmptyColl:
+				lists["empty_list_overrides_leaving_the_catalogue_list_in_place"] = append(lists["empty_list_overrides_leaving_the_catalogue_list_in_place"], s.ID+"/"+ov.Name)
 			case ov.Inert && discriminated:
 				lists["inert_overrides_with_effect"] = append(lists["inert_overrides_with_effect"], s.ID+"/"+ov.Name)
 			case ov.Inert:
@@ -385,6 +392,9 @@ func (e *env) runRound(idx int) error {
 		raw, err := createVia(a.MF, p.s, cfg)
 		perMechOrder[p.s.ID] = append(perMechOrder[p.s.ID], p.ov.Name)
 		counts["variant_creations"]++
+		if p.ov.Coll != "" {
+			counts["variant_creations_with_"+p.ov.Coll+"_collection"]++
+		}
 		if err != nil {
 			if !p.ov.WantErr {
 				return fmt.Errorf("round %d: override %s/%s rejected: %w", idx, p.s.ID, p.ov.Name, err)
@@ -444,9 +454,13 @@ func (e *env) runRound(idx int) error {
 					in  *input
 					ctx ctxPair
 				}
-				steps := make([]step, 0, len(os))
-				for j := 0; j < len(os); j++ {
-					o := os[(g+j)%len(os)]
+				n, first := len(os), g
+				if s.MaxSteps > 0 && n > s.MaxSteps {
+					n, first = s.MaxSteps, g*len(os)/e.g
+				}
+				steps := make([]step, 0, n)
+				for j := 0; j < n; j++ {
+					o := os[(first+j)%len(os)]
 					in := &s.Inputs[(g+j+idx)%len(s.Inputs)]
 					c, rc := newCtx(in)
 					steps = append(steps, step{o, in, ctxPair{c, rc}})
@@ -484,7 +498,11 @@ func (e *env) runRound(idx int) error {
 	e.checkFingerprints(all, "execute", idx, counts, perMechOrder, "concurrent execution of prototypes and variants")
 	// 6. every object still behaves as in isolation
 	for _, o := range all {
-		for _, i := range rng.Perm(len(o.Spec.Inputs)) {
+		perm := rng.Perm(len(o.Spec.Inputs))
+		if o.Spec.MaxSteps > 0 && len(perm) > maxInputsOfWideSpecs {
+			perm = perm[:maxInputsOfWideSpecs] // another selection for every object and round
+		}
+		for _, i := range perm {
 			in := &o.Spec.Inputs[i]
 			e.checkBehaviour(o, in, o.run(in), "after-all-executions", idx, counts, perMechOrder)
 			counts["sequential_executions"]++
@@ -514,6 +532,10 @@ func (e *env) runRound(idx int) error {
 	e.j.write(ev)
 	return nil
 }
+
+// maxInputsOfWideSpecs: mechanisms with many variants (MaxSteps set) are executed after the concurrent phase with this
+// many of their inputs per object.
+const maxInputsOfWideSpecs = 4
 
 type ctxPair struct {
 	c  ctxT
@@ -619,6 +641,9 @@ func TestC17(t *testing.T) {
 		"oauth2_introspection with introspection_endpoint / metadata_endpoint and cache ttls below / between / above the lifetimes in the introspection responses; authorizers allow, deny, cel, remote; generic contextualizer; finalizers header, cookie, jwt, noop, " +
 		"oauth2_client_credentials; error handlers default, redirect, www_authenticate) is loaded through the real mechanism factory of a freshly assembled heimdall instance per round; " +
 		"every overridable option alone and combined is turned into a rule-level variant, in a seeded random global creation order (a quarter of the override sets twice); " +
+		"every overridable map or list valued option (values, forward_headers, forward_cookies, expressions, forward_response_headers_to_upstream, assertions.issuers / audience / scopes / allowed_algorithms, " +
+		"scopes, headers, cookies) is overridden with collections smaller than, as big as and bigger than the one of the catalogue entry, sharing none, some or all of its entries (catalogue entries with " +
+		"two or three entries per collection which render the whole collection into the upstream request), and with the empty collection; scalar options also with the empty string; " +
 		"even rounds are cold (the first execution of every object happens when 16 goroutines are released by a barrier, each starting with a different object of the mechanism), " +
 		"odd rounds execute prototypes and earlier variants sequentially between creations. Monitors: race detector (child process), reflective deep fingerprint of every prototype " +
 		"and variant (after each creation, after sequential and after concurrent executions), behaviour (result of Execute incl. subject, upstream headers/cookies, outputs, pipeline " +
@@ -629,6 +654,8 @@ func TestC17(t *testing.T) {
 		"library objects (compiled templates, CEL programs, crypto keys) are compared by pointer identity only",
 		"values captured by closures (jwks/introspection endpoint of the non-metadata authenticators) are invisible to the fingerprint; they are covered by the behavioural monitor "+
 			"(the upstream request is echoed into the result)",
+		"the documentation of the mechanisms does not say what an empty list in a rule-level override means (clear the option, or nothing to override); such overrides are only checked for locality, "+
+			"the reading heimdall applies is listed per option (empty_list_overrides_...); an empty `values` map holds no key to overlay and must change nothing",
 		"race freedom only on the interleavings produced")
 	rounds := r.Pick(10, 50)
 	batch := r.Pick(5, 5)
@@ -761,6 +788,9 @@ func TestC17(t *testing.T) {
 	r.Require("executions_with_cache_ttl_bounded_by_upstream_lifetime", r.Counter("executions_with_cache_ttl_bounded_by_upstream_lifetime"), int64(rounds*30))
 	r.Require("executions_with_configured_cache_ttl_below_upstream_lifetime", r.Counter("executions_with_configured_cache_ttl_below_upstream_lifetime"), int64(rounds*30))
 	r.Require("fingerprint_comparisons", r.Counter("fingerprint_comparisons"), int64(rounds*500))
+	for _, c := range []string{"smaller", "equal", "larger", "empty"} {
+		r.Require("variant_creations_with_"+c+"_collection", r.Counter("variant_creations_with_"+c+"_collection"), int64(rounds*5))
+	}
 	r.End()
 }
 
